@@ -108,7 +108,13 @@ def rhs_text(draw):
 
 @st.composite
 def stmt_text(draw, depth):
-    k = draw(st.integers(0, 21))
+    k = draw(st.integers(0, 22))
+    if k == 22:
+        # a timing-strict action directly behind an open-ended match: cannot be scheduled, must be a rendered diagnosis whatever the action is
+        opn = draw(st.sampled_from(["/a+/", "/a*/", "/[a-c]+/", "/.*/", "/ab*/", "/(ab)+/", "s0 += /a+/", "wait /ab*/", "optional { \"a\"; }"]))
+        act = draw(st.sampled_from(["break;", "break lp;", "h0();", "finish;", "finish F0;", "yield Y0;", "s0 += [65];", "n0 = [n0 + 1];", "if n0 == 1 { break; }",
+                                    "if n0 == 1 { h0(); }", "delete s0;", "mac0();", "s0 += [s0.len];"]))
+        return "%s; %s" % (opn, act)
     if depth <= 0 and k >= 12:
         k = k % 12
     if k == 0:
@@ -226,6 +232,34 @@ def wild_source(draw):
     return src, draw(odd_argv())
 
 
+SCHED_DECLS = "out int n0 = 0;\nout str[8] s0;\nhook h0;\nfinishcode F0;\nyieldcode Y0;\nmacro mac0() { h0(); }\n"
+SCHED_OPEN = ["/a+/", "/a*/", "/[a-c]+/", "/.*/", "/ab*/", "/(ab)+/", "s0 += /a+/", "wait /ab*/", "optional { \"a\"; }", "\"a\"", "/a{2,}/", "case { /a+/ -> { } \"b\" -> { } }",
+              "greedy case { /a+/ -> { n0 = 1; } \"ab\" -> { n0 = 2; } }", "foreach { /a+/; } do { n0 = 1; }", "try { /a+/; } catch { }", "end", "(\"a\" /b*/)"]
+SCHED_ACT = ["break;", "break lp;", "h0();", "finish;", "finish F0;", "yield Y0;", "s0 += [65];", "n0 = [n0 + 1];", "if n0 == 1 { break; }", "if n0 == 1 { h0(); }", "delete s0;",
+             "mac0();", "s0 += [s0.len];", "if n0 == 1 { finish; } else { break; }", "s0 = \"\";", "n0 = 3;", "if n0 == 1 { yield Y0; }", "if n0 == 1 { s0 += [66]; }"]
+SCHED_WRAP = ["loop lp { %s }", "loop { %s }", "loop lp { case { \"x\" -> { %s } \"y\" -> { } } }", "try { %s } catch { }", "optional { \"q\"; %s }", "%s",
+              "loop lp { try { %s } catch (outofspace) { break; } }", "foreach { %s } do { n0 = 1; }", "loop lp { \"b\"; %s }", "loop lp { %s \"c\"; }",
+              "loop lp { loop { %s } \"c\"; }", "case { \"x\" -> { %s } else -> { } }", "if n0 == 0 { %s } else { \"k\"; }"]
+
+
+@st.composite
+def sched_source(draw):
+    """Valid declarations and one construct whose actions may or may not be schedulable (a timing-strict or plain action directly behind an
+    open-ended statement, inside every kind of block): accepted or a rendered diagnosis, whatever the action is."""
+    inner = "%s; %s" % (draw(st.sampled_from(SCHED_OPEN)), draw(st.sampled_from(SCHED_ACT)))
+    if draw(st.integers(0, 3)) == 0:
+        inner += " %s; %s" % (draw(st.sampled_from(SCHED_OPEN)), draw(st.sampled_from(SCHED_ACT)))
+    body = draw(st.sampled_from(SCHED_WRAP)) % inner
+    lead = draw(st.sampled_from(["", "", "\"s\"; ", "h0(); ", "/s*/; "]))
+    tail = draw(st.sampled_from(["", " \"z\";", " \"z\"; h0();", " /a/;", " end;"]))
+    argv = list(draw(odd_argv()))
+    if "yield" in inner and draw(st.integers(0, 3)) > 0 and "-fyield-support" not in argv:
+        argv.append("-fyield-support")
+    if "end" in inner + tail and draw(st.integers(0, 3)) > 0 and "-feof-support" not in argv:
+        argv.append("-feof-support")
+    return SCHED_DECLS + "parser { %s%s%s }\n" % (lead, body, tail), argv
+
+
 @st.composite
 def typed_source(draw):
     mode = draw(st.sampled_from(["plain", "yield", "eof"]))
@@ -310,7 +344,7 @@ def worker(job):
         if len(shard.samples) < 2 and len(src) < 400:
             shard.sample({"source": src, "argv": argv})
 
-    strat = wild_source() if which == "wild" else (typed_source() if which == "typed" else mutated_typed_source())
+    strat = {"wild": wild_source, "typed": typed_source, "mutated": mutated_typed_source, "sched": sched_source}[which]()
     common.hyp_run(shard, body, strat, n, seed, known_keys=known, stop_at=stop_at, shrink=False)
     # ddmin-ish: try to shorten each bucket's source by dropping lines / statements
     for b, info in buckets.items():
@@ -394,7 +428,7 @@ def afuzz_tier(ctx, seconds, known):
     os.makedirs(outdir)
     procs = []
     for i in range(common.NPROC):
-        which = ("wild", "wild", "mutated", "wild")[i % 4]
+        which = ("wild", "sched", "mutated", "wild")[i % 4]
         log = open(os.path.join(outdir, "log%d.txt" % i), "w")
         procs.append((i, subprocess.Popen([sys.executable, "-m", "vlib.afuzz", which, str(ctx.seed * 100003 + 500 + i), str(seconds), outdir, str(i)],
                                           env=env, cwd=common.VERIF_DIR, stdout=log, stderr=subprocess.STDOUT), log))
@@ -452,7 +486,7 @@ def main(ctx):
     ctx.pmap(fixed_worker, [(open(p).read(), a, known) for p in corpus for a in ([], ["-O3", "-feof-support", "-fyield-support"])])
     n = 1200 if quick else 12000
     stop_at = time.time() + (60 if quick else 540)
-    ctx.pmap(worker, [(ctx.seed * 100003 + i, n, known, stop_at, ("wild", "wild", "mutated", "typed")[i % 4]) for i in range(common.NPROC)])
+    ctx.pmap(worker, [(ctx.seed * 100003 + i, n, known, stop_at, ("wild", "sched", "mutated", "typed")[i % 4]) for i in range(common.NPROC)])
     afuzz_tier(ctx, 25 if quick else 330, known)
     ctx.rule = ("case = (source text from an untyped grammar-based generator [3/4] or from the typed program generator with the lookahead constraint "
                 "relaxed [1/4, half of them with one identifier / operator mutated], option set from a list of odd-but-legal mixes); evaluations = compilations. Non-trivial: source reaching an error path "
